@@ -371,3 +371,7 @@ func dedupLastWins(doc string) string {
 	rec(t)
 	return t.String()
 }
+
+func adapterctrlNewParser(w *World) (*adapterctrl.IBCParser, error) {
+	return adapterctrl.NewIBCParser(w.App.appCodec)
+}
